@@ -17,16 +17,17 @@ RULE = ("exhaustive enumeration (see exhaustive_subspace) of (input shape, targe
         "trimmed_after_convolution_from / Mask2D.trimmed_array_from and their compositions; all masks of small shapes "
         "with buffers 0..2 through Mask2D.zoom_region / Array2D.zoomed_around_mask; Imaging.apply_mask (automatic "
         "padding) over masks, kernels, pixel scales and origins observing .data/.noise_map/.grids.uniform/.mask; "
-        "Mask2D.resized_from + Grid2D.from_mask for the coordinate clause; plus a random stream of larger shapes. "
+        "Mask2D.resized_from + Grid2D.from_mask for the coordinate clause; Imaging.apply_mask followed by "
+        "AbstractDataset.trimmed_after_convolution_from on inputs that get padded; plus a random stream of larger shapes. "
         "Every case is non-trivial (it runs an anchored routine); distinct = distinct JSON input.")
 EXHAUSTIVE = {
     "quick": "util resize: all shapes 1..5 x 1..5 to all targets 0..6 x 0..6; Array2D/Mask2D.resized_from: shapes 1..4^2 to "
              "targets 1..6^2 (mask drawn per case); pad / trim / pad-then-trim / trimmed_array_from: shapes 1..4^2 x kernels "
              "{1,3,5,7}^2; enlarge-then-shrink: shapes 1..4^2 x enlargements 0..3 per axis; zoom: every mask with H*W <= 7, "
              "buffer cycling 0,1,2; apply_mask: every mask with H*W <= 6 with kernel (3,3)",
-    "thorough": "util resize: shapes 1..9^2 to targets 0..10^2; Array2D/Mask2D.resized_from: shapes 1..7^2 to targets 1..9^2; "
+    "thorough": "util resize: shapes 1..8^2 to targets 0..9^2; Array2D/Mask2D.resized_from: shapes 1..7^2 to targets 1..9^2; "
                 "pad/trim family: shapes 1..6^2 x kernels {1,3,5,7}^2; enlarge-then-shrink: shapes 1..6^2 x enlargements 0..4; "
-                "zoom: every mask with H*W <= 10 (each buffer 0,1,2 up to H*W <= 8, cycling above); apply_mask: every mask with H*W <= 9, kernels (3,3),(1,5),(5,3)",
+                "zoom: every mask with H*W <= 9 (each buffer 0,1,2 up to H*W <= 8, cycling above); apply_mask: every mask with H*W <= 8, kernels (3,3),(1,5),(5,3)",
 }
 TRUSTED = ["correspondence harness harness/c14.py (exact: integer data, dyadic pixel scales / origins, outputs converted with Fraction)",
            "numpy slicing a[lo:hi] (Model.C14.pyslice incl. negative bounds), element-wise array *= invert(mask) "
@@ -71,10 +72,15 @@ GEOMS = [("1", "1", "0", "0"), ("1/2", "2", "1", "-2"), ("2", "1/4", "-1/2", "3/
          ("3/2", "3", "3", "-3/2"), ("1", "3/2", "-2", "3")]
 ODD = [1, 3, 5, 7]
 
+def needs_pad(m, k):
+    """an unmasked pixel whose (odd) kernel footprint leaves the frame: Imaging pads"""
+    h, w = len(m), len(m[0]); c0, c1 = (k[0] - 1) // 2, (k[1] - 1) // 2
+    return any((not m[y][x]) and (y < c0 or y + c0 >= h or x < c1 or x + c1 >= w) for y in range(h) for x in range(w))
+
 def gen_inputs(tier, rng):
     big = tier == "thorough"
     # --- util resize, exhaustive over shapes and targets (all parity combinations)
-    S, R = (9, 10) if big else (5, 6)
+    S, R = (8, 9) if big else (5, 6)
     for h, w in itertools.product(range(1, S + 1), repeat=2):
         m = [[1 + y * w + x for x in range(w)] for y in range(h)]
         for r0, r1 in itertools.product(range(0, R + 1), repeat=2):
@@ -124,7 +130,7 @@ def gen_inputs(tier, rng):
             if ish[0] < 0 or ish[1] < 0: continue
             yield {"op": "trimarr", "p": values(h, w, rng), "is": ish}
     # --- zoom
-    lim = 10 if big else 7
+    lim = 9 if big else 7
     for h in range(1, lim + 1):
         for w in range(1, lim // h + 1):
             for mk in all_masks(h, w):
@@ -134,7 +140,7 @@ def gen_inputs(tier, rng):
                     yield {"op": "zoom", "a": [values(h, w, rng), mk], "b": b}
     yield {"op": "zoom", "a": [values(2, 2, rng), rmask(2, 2, rng, 0.5)], "b": -1}
     # --- Imaging.apply_mask
-    lim = 9 if big else 6
+    lim = 8 if big else 6
     kers = [(3, 3), (1, 5), (5, 3)] if big else [(3, 3)]
     for h in range(1, lim + 1):
         for w in range(1, lim // h + 1):
@@ -148,8 +154,18 @@ def gen_inputs(tier, rng):
         k = rng.choice([None, None] + [[a, b] for a in ODD for b in ODD] + [[2, 2], [4, 3]])
         yield {"op": "apply_mask", "data": values(h, w, rng), "noise": values(h, w, rng, 1, 9),
                "m": rmask(h, w, rng, rng.choice([0.3, 0.6, 0.9])), "k": k, "g": list(rng.choice(GEOMS))}
+    # --- Imaging.apply_mask (padding) then AbstractDataset.trimmed_after_convolution_from (inputs of the padded class only)
+    n = 0
+    while n < (1500 if big else 250):
+        h, w = rng.randint(1, 6), rng.randint(1, 6)
+        k = [rng.choice(ODD), rng.choice(ODD)]
+        mk = rmask(h, w, rng, rng.choice([0.3, 0.6, 0.9]))
+        if not needs_pad(mk, k): continue
+        n += 1
+        yield {"op": "apply_mask_trim", "data": values(h, w, rng), "noise": values(h, w, rng, 1, 9), "m": mk, "k": k,
+               "g": list(rng.choice(GEOMS)), "touch": n % 2 == 0}
     # --- random larger shapes
-    for _ in range(2000 if big else 200):
+    for _ in range(1200 if big else 200):
         h, w = rng.randint(5, 12), rng.randint(5, 12)
         r = [rng.randint(1, 14), rng.randint(1, 14)]
         a = [values(h, w, rng, -99, 99), rmask(h, w, rng)]
@@ -257,6 +273,25 @@ def run_case(inp):
         pr = lambda o: ctup([cbarr(o[0]), ctup([clist([cz(v) for v in o[1]]), clist([cz(v) for v in o[2]])]),
                              clist([cqq(p) for p in o[3]])])
         coq = (f"KApplyMask {czarr(inp['data'])} {czarr(inp['noise'])} {cbarr(inp['m'])} {copt(inp['k'], cpair)} "
+               f"{cgeom(g)} {cres(out, pr)}")
+        if out[0] == "ok": out = ("ok", [out[1][0], out[1][1], out[1][2], [[str(a), str(b)] for a, b in out[1][3]]])
+    elif op == "apply_mask_trim":
+        g = inp["g"]; gf = [float(Fraction(x)) for x in g]
+        def f():
+            ps, org = (gf[0], gf[1]), (gf[2], gf[3])
+            data = aa.Array2D.no_mask(values=np.array(inp["data"], dtype=float), pixel_scales=ps, origin=org)
+            noise = aa.Array2D.no_mask(values=np.array(inp["noise"], dtype=float), pixel_scales=ps, origin=org)
+            psf = aa.Kernel2D.no_mask(values=np.ones(tuple(inp["k"])), pixel_scales=ps)
+            ds = aa.Imaging(data=data, noise_map=noise, psf=psf).apply_mask(mask=mk_mask(aa, inp["m"], g))
+            if inp["touch"]: _ = ds.grids.uniform      # the cached grids exist before the trim
+            ds2 = ds.trimmed_after_convolution_from(kernel_shape=tuple(inp["k"]))
+            grid = np.array(ds2.grids.uniform).reshape(-1, 2)
+            return [bout(np.array(ds2.mask)), zout(np.array(ds2.data.native)), zout(np.array(ds2.noise_map.native)),
+                    [[fr(p[0]), fr(p[1])] for p in grid]]
+        out = call_res(f)
+        tally("apply_mask_trim" + (" grids touched before" if inp["touch"] else ""))
+        pr = lambda o: ctup([cbarr(o[0]), ctup([czarr(o[1]), czarr(o[2])]), clist([cqq(p) for p in o[3]])])
+        coq = (f"KApplyMaskTrim {czarr(inp['data'])} {czarr(inp['noise'])} {cbarr(inp['m'])} {cpair(inp['k'])} "
                f"{cgeom(g)} {cres(out, pr)}")
         if out[0] == "ok": out = ("ok", [out[1][0], out[1][1], out[1][2], [[str(a), str(b)] for a, b in out[1][3]]])
     elif op == "resize_coords":
